@@ -363,7 +363,7 @@ theorem scale_factory_agrees_with_base (ks : List Rat) (hl : ks.length = 2 ∨ k
   by_cases hz : (ks.any (· == 0)) = true
   · simp [hz]
   · cases ks with
-    | nil => simp
+    | nil => simp at hl
     | cons k t =>
       have hl' : ((k :: t).length == 2 || (k :: t).length == 3) = true := by
         rcases hl with h | h <;> simp [h]
@@ -524,7 +524,7 @@ theorem identity_rows_sound :
     identityRows.all (fun r => (r.result == r.owner && r.arg == s!"n_dims={r.nDims}") || r.result == "ValueError") = true := by
   decide +kernel
 
-theorem model_table_length : modelCtorTable.length = 60 := by decide +kernel
+theorem model_table_length : modelCtorTable.length = 123 := by decide +kernel
 
 /-! ### non-vacuity -/
 example : (scaleAboutCentre (.d2 (.cloud [⟨0, 0⟩, ⟨3, 0⟩, ⟨0, 4⟩])) 2) = .a2 ⟨2, 0, -1, 0, 2, -4 / 3⟩ := by decide +kernel
